@@ -707,15 +707,15 @@ fn mode_glob(seed: u64, maxlen: usize, nrandom: usize) {
     let n_utf = t.evaluations - n_ascii;
     // texts may contain the wildcard characters themselves (nick names, user names and real names may): in the text
     // they are ordinary characters
-    let pats = all_strings(&['a', '*', '?'], ulen);
-    let texts = all_strings(&['a', '*', '?'], ulen);
+    let pats = all_strings(&['a', '*', '?', '\\'], if ulen > 4 { 4 } else { ulen });
+    let texts = all_strings(&['a', '*', '?', '\\'], if ulen > 4 { 4 } else { ulen });
     for p in &pats {
         for s in &texts {
             check_glob(&mut t, p, s);
         }
     }
     let mut r = Rng(seed ^ 0x77);
-    let atoms = ["a", "b", "ab", "nick", "!", "@", "~user", "127.0.0.1", "*", "*", "?", "é", "日", "host.example", "zzzzzzzz"];
+    let atoms = ["a", "b", "ab", "nick", "!", "@", "~user", "127.0.0.1", "*", "*", "?", "é", "日", "host.example", "zzzzzzzz", "\\", "[", "]"];
     for i in 0..nrandom {
         let mut p = String::new();
         for _ in 0..r.below(6) {
